@@ -33,6 +33,22 @@ func stringsUpTo(n int) []string {
 	return out
 }
 
+func stringsOver(symbols []string, n int) []string {
+	out := []string{""}
+	prev := []string{""}
+	for l := 1; l <= n; l++ {
+		var cur []string
+		for _, p := range prev {
+			for _, s := range symbols {
+				cur = append(cur, p+s)
+			}
+		}
+		out = append(out, cur...)
+		prev = cur
+	}
+	return out
+}
+
 func safeMatch(p acl.Secret, name string) (res bool, panicked any) {
 	defer func() {
 		if r := recover(); r != nil {
@@ -52,86 +68,92 @@ func TestCheck(t *testing.T) {
 	if env.Thorough() {
 		n = 4
 	}
-	strs := stringsUpTo(n)
-	sec := rep.Add(&report.Section{Name: fmt.Sprintf("match-all-pairs-len%d", n), Engine: "enum", Exhaustive: true, Extra: map[string]int64{},
-		Rule: "every (pattern, name) with both strings over the 10-symbol alphabet up to the length bound: acl.Secret.Match vs the DP glob matcher; non-trivial = pairs where the pattern contains '*' and the reference says match, or the pattern has no '*' and equals the name"})
-	type mism struct{ pat, name, detail string }
-	var mu sync.Mutex
-	var mismatches []mism
-	var evals, nontriv int64
-	var wg sync.WaitGroup
-	workers := 16
-	for w := 0; w < workers; w++ {
-		wg.Add(1)
-		go func(w int) {
-			defer wg.Done()
-			var e, nt int64
-			var local []mism
-			for i := w; i < len(strs); i += workers {
-				if !env.Mine(int64(i)) {
-					continue
-				}
-				pat := strs[i]
-				for _, name := range strs {
-					want := model.GlobMatch(pat, name)
-					got, pan := safeMatch(acl.Secret(pat), name)
-					e++
-					if want {
-						nt++
+	runPairs := func(strs []string, sec *report.Section) {
+		type mism struct{ pat, name, detail string }
+		var mu sync.Mutex
+		var mismatches []mism
+		var evals, nontriv int64
+		var wg sync.WaitGroup
+		workers := 16
+		for w := 0; w < workers; w++ {
+			wg.Add(1)
+			go func(w int) {
+				defer wg.Done()
+				var e, nt int64
+				var local []mism
+				for i := w; i < len(strs); i += workers {
+					if !env.Mine(int64(i)) {
+						continue
 					}
-					if pan != nil {
-						local = append(local, mism{pat, name, fmt.Sprintf("panic: %v", pan)})
-					} else if got != want {
-						local = append(local, mism{pat, name, fmt.Sprintf("Match=%v, reference=%v", got, want)})
+					pat := strs[i]
+					for _, name := range strs {
+						want := model.GlobMatch(pat, name)
+						got, pan := safeMatch(acl.Secret(pat), name)
+						e++
+						if want {
+							nt++
+						}
+						if pan != nil {
+							local = append(local, mism{pat, name, fmt.Sprintf("panic: %v", pan)})
+						} else if got != want {
+							local = append(local, mism{pat, name, fmt.Sprintf("Match=%v, reference=%v", got, want)})
+						}
+					}
+					if env.Expired() {
+						break
 					}
 				}
-				if env.Expired() {
-					break
+				mu.Lock()
+				evals += e
+				nontriv += nt
+				mismatches = append(mismatches, local...)
+				mu.Unlock()
+			}(w)
+		}
+		wg.Wait()
+		if env.Expired() {
+			sec.Exhaustive = false
+		}
+		sec.Evaluations, sec.Nontrivial, sec.States, sec.Transitions = evals, nontriv, int64(len(strs)), evals
+		sec.Samples = append(sec.Samples, map[string]any{"pattern": "a*/", "name": "ab/", "reference": model.GlobMatch("a*/", "ab/")}, map[string]any{"pattern": "*", "name": "a\nb", "reference": true})
+		// report the shortest mismatches, classified
+		classOf := func(m mism) string {
+			hasNL := false
+			for _, c := range m.name {
+				if c == '\n' {
+					hasNL = true
 				}
 			}
-			mu.Lock()
-			evals += e
-			nontriv += nt
-			mismatches = append(mismatches, local...)
-			mu.Unlock()
-		}(w)
-	}
-	wg.Wait()
-	if env.Expired() {
-		sec.Exhaustive = false
-	}
-	sec.Evaluations, sec.Nontrivial, sec.States, sec.Transitions = evals, nontriv, int64(len(strs)), evals
-	sec.Samples = append(sec.Samples, map[string]any{"pattern": "a*/", "name": "ab/", "reference": model.GlobMatch("a*/", "ab/")}, map[string]any{"pattern": "*", "name": "a\nb", "reference": true})
-	// report the shortest mismatches, classified
-	classOf := func(m mism) string {
-		hasNL := false
-		for _, c := range m.name {
-			if c == '\n' {
-				hasNL = true
+			switch {
+			case len(m.detail) > 5 && m.detail[:5] == "panic":
+				return "panic"
+			case hasNL:
+				return "newline-in-name"
+			}
+			return "other"
+		}
+		best := map[string]mism{}
+		count := map[string]int64{}
+		for _, m := range mismatches {
+			c := classOf(m)
+			count[c]++
+			b, ok := best[c]
+			if !ok || len(m.pat)+len(m.name) < len(b.pat)+len(b.name) || (len(m.pat)+len(m.name) == len(b.pat)+len(b.name) && m.pat+"|"+m.name < b.pat+"|"+b.name) {
+				best[c] = m
 			}
 		}
-		switch {
-		case len(m.detail) > 5 && m.detail[:5] == "panic":
-			return "panic"
-		case hasNL:
-			return "newline-in-name"
+		for c, m := range best {
+			rep.Violate(sec.Name, fmt.Sprintf("match/%s: pattern %q name %q", c, m.pat, m.name), fmt.Sprintf("pattern %q vs name %q: %s (%d mismatches of this class)", m.pat, m.name, m.detail, count[c]), map[string]any{"pattern": m.pat, "name": m.name})
 		}
-		return "other"
-	}
-	best := map[string]mism{}
-	count := map[string]int64{}
-	for _, m := range mismatches {
-		c := classOf(m)
-		count[c]++
-		b, ok := best[c]
-		if !ok || len(m.pat)+len(m.name) < len(b.pat)+len(b.name) || (len(m.pat)+len(m.name) == len(b.pat)+len(b.name) && m.pat+"|"+m.name < b.pat+"|"+b.name) {
-			best[c] = m
-		}
-	}
-	for c, m := range best {
-		rep.Violate(sec.Name, fmt.Sprintf("match/%s: pattern %q name %q", c, m.pat, m.name), fmt.Sprintf("pattern %q vs name %q: %s (%d mismatches of this class)", m.pat, m.name, m.detail, count[c]), map[string]any{"pattern": m.pat, "name": m.name})
-	}
 
+	}
+	strs := stringsUpTo(n)
+	runPairs(strs, rep.Add(&report.Section{Name: fmt.Sprintf("match-all-pairs-len%d", n), Engine: "enum", Exhaustive: true, Extra: map[string]int64{},
+		Rule: "every (pattern, name) with both strings over the 10-symbol alphabet up to the length bound: acl.Secret.Match vs the DP glob matcher; non-trivial = pairs where the pattern contains '*' and the reference says match, or the pattern has no '*' and equals the name"}))
+	// a second alphabet of punctuation that means something to regexp or fmt, one length shorter
+	punct := stringsOver([]string{"a", "*", "%", "(", ")", "+", "?", "{", "^", "|", "]", "-", " "}, n-1)
+	runPairs(punct, rep.Add(&report.Section{Name: fmt.Sprintf("match-all-pairs-punctuation-len%d", n-1), Engine: "enum", Exhaustive: true, Extra: map[string]int64{},
+		Rule: "every (pattern, name) with both strings over {a, *, %, (, ), +, ?, {, ^, |, ], -, space} up to the length bound: acl.Secret.Match vs the DP glob matcher"}))
 	// rule-set shapes
 	rs := rep.Add(&report.Section{Name: "rule-set-shapes", Engine: "enum", Exhaustive: true, Extra: map[string]int64{},
 		Rule: "every rule set of 0-2 rules, each with 0-2 actions from {get, put} and 0-2 patterns from {a*, *b, a/b, a, b, a<newline>b}, × action {get, put, info} × names, evaluated in one process in forward and then in reverse order: Rules.Allow vs the reference; empty set allows nothing; monotone under adding a rule; no panic; non-trivial = evaluations the reference allows"})
